@@ -55,8 +55,8 @@ def key_names():
     yield 'nested-key-2', [KEY_COMP, ts.tlv(8, b'a'), KEY_COMP, ts.tlv(8, b'b')]
 
 
-def issuer_signer(kind):
-    loc = '/issuer/' + kind + '/KEY/%01'
+def issuer_signer(kind, loc=None):
+    loc = loc or '/issuer/' + kind + '/KEY/%01'
     if kind in EC_ISSUER_KEY:
         return Sha256WithEcdsaSigner(loc, key_der(EC_ISSUER_KEY[kind])), loc
     if kind == 'rsa':
@@ -197,6 +197,14 @@ def derive_cases(tier):
     for st, du in (('2024-12-31T23:59:59.600000', 0.5), ('2024-12-31T23:59:59.600000', 0.25), ('2024-02-28T23:59:58.999999', 1.000001),
                    ('2024-02-29T12:00:00.500000', 3600), ('2024-02-29T12:00:00', 0.75)):
         yield {'f': 'derive', 'kn': 'ident1-id0', 'iid': 'str', 'subj': 'ec256_1', 'iss': 'ed', 'start': st, 'dur': du, 'it': 0}
+    # L: the issuer's key locator configured as an encoded Name (bytes / bytearray / memoryview) of exactly 32 and of 33 octets; and a
+    #    second signer object of the same kind, same locator, other private key, used just before (a replaced key under the old name)
+    for iss in ('ed', 'ecdsa', 'rsa', 'hmac'):
+        for form in ('bytes', 'bytearray', 'memoryview'):
+            for extra in (0, 1):
+                yield {'f': 'derive', 'kn': 'ident1-id0', 'iid': 'str', 'subj': 'ec256_1', 'iss': iss, 'start': STARTS[3], 'dur': 3600, 'it': 0,
+                       'loc_wire': form, 'loc_extra': extra}
+        yield {'f': 'derive', 'kn': 'ident1-id0', 'iid': 'str', 'subj': 'ec256_1', 'iss': iss, 'start': STARTS[3], 'dur': 3600, 'it': 0, 'decoy_signer': True}
     # F: the key name given in the other documented forms (generator of components, tuple, URI text, encoded name)
     for form in ('gen', 'tuple', 'uri', 'wire'):
         yield {'f': 'derive', 'kn': 'ident1-id1', 'iid': 'str', 'subj': 'ec256_1', 'iss': 'ed', 'start': STARTS[3], 'dur': 3600, 'it': 0, 'form': form}
@@ -258,7 +266,28 @@ def run_case_inner(case):
     pub = pub_der(case['subj'])
     if case.get('keytail'):
         pub = pub[:-1] + bytes.fromhex(case['keytail'])
-    signer, loc = issuer_signer(case['iss'])
+    if case.get('decoy_signer'):
+        # a signer object of the same kind with the same locator and another private key exists (and has been used) before this one
+        loc0 = '/issuer/' + case['iss'] + '-replaced/KEY/%01'
+        other_key = {'rsa': lambda: Sha256WithRsaSigner(loc0, key_der('rsa2048_2')), 'ed': lambda: Ed25519Signer(loc0, key_der('ed25519_1')),
+                     'ecdsa': lambda: Sha256WithEcdsaSigner(loc0, key_der('ec256_3')), 'hmac': lambda: HmacSha256Signer(loc0, b'another-hmac-key')}[case['iss']]()
+        try:
+            sv2.derive_cert(list(names['ident1-id1']), 'old', pub_der(case['subj']), other_key, dt.datetime(2020, 1, 1), 60)
+        except Exception:  # noqa
+            pass
+    signer, loc = issuer_signer(case['iss'], '/issuer/' + case['iss'] + '-replaced/KEY/%01' if case.get('decoy_signer') else None)
+    if case.get('loc_wire'):
+        loc = [ts.tlv(8, b'ndn'), ts.tlv(8, b'alice123' + b'x' * case['loc_extra']), ts.tlv(8, b'KEY'), ts.tlv(8, b'\x01\x02\x03\x04\x05\x06\x07\x08')]
+        lw = ts.tlv(7, b''.join(loc))
+        assert len(lw) == 32 + case['loc_extra']
+        signer.key_locator_name = {'bytes': lw, 'bytearray': bytearray(lw), 'memoryview': memoryview(lw)}[case['loc_wire']]
+    if case.get('decoy_signer') == 'after':
+        other_key = {'rsa': lambda: Sha256WithRsaSigner(loc, key_der('rsa2048_2')), 'ed': lambda: Ed25519Signer(loc, key_der('ed25519_1')),
+                     'ecdsa': lambda: Sha256WithEcdsaSigner(loc, key_der('ec256_3')), 'hmac': lambda: HmacSha256Signer(loc, b'another-hmac-key')}[case['iss']]()
+        try:
+            sv2.derive_cert(list(names['ident1-id1']), 'old', pub, other_key, dt.datetime(2020, 1, 1), 60)
+        except Exception:  # noqa
+            pass
     if case.get('text'):
         loc = ['issu\u00e9r', 'k \u00e9', 'KEY', ts.tlv(8, b'\x01')]
         signer.key_locator_name = list(loc)
